@@ -1,6 +1,6 @@
 (* C05 — property theorems (statements only; proofs live in Proofs*.v). *)
 From Coq Require Import List ZArith QArith Bool Sorting.Permutation.
-Require Import QV.C05.Model QV.C05.Spec QV.C05.Proofs QV.C05.Proofs2 QV.C05.Proofs3.
+Require Import QV.C05.Model QV.C05.Spec QV.C05.Proofs QV.C05.Proofs2 QV.C05.Proofs3 QV.C05.Proofs4 QV.C05.Proofs5.
 Import ListNotations.
 Open Scope Z_scope.
 
@@ -29,22 +29,34 @@ Theorem C05_global_transformation_refuted : exists p S G, ~ transformed_play p S
 Proof. exists w_par, [], [TScale [(1%N, 2%Q); (2%N, 2%Q)]]. exact refute_global. Qed.
 Print Assumptions C05_global_transformation_refuted.
 
-(* single waveform.  Full statement (voltages, duration, windows) under the guard: *)
-Definition C05_single_waveform_statement : Prop := forall p S, guard_C05_single_waveform S p = true ->
+(* every compiled program is well-formed (leaves last a positive time, nodes repeat at least once and have children),
+   for every template tree, set S and transformation G *)
+Theorem C05_compiled_wellformed : forall p S G l, compile p S G = Some l -> lok l.
+Proof. exact compile_lok. Qed.
+Print Assumptions C05_compiled_wellformed.
+
+(* single waveform: for EVERY template tree and EVERY set S of collapsed nodes (under the executable guard that
+   excludes the two confirmed defect classes) the program compiled with S plays the same voltages at every time,
+   lasts as long and has the same measurement windows (as a multiset) as the plain compilation; both are None
+   together.  Induction on the template over builder states (Proofs4: frame lemma, Proofs5: the induction). *)
+Theorem C05_single_waveform : forall p S, guard_C05_single_waveform S p = true ->
   match compile p S [], compile p [] [] with
   | Some l, Some l' => ldur l = ldur l' /\ Permutation (windows l) (windows l') /\
                        forall c t, 0 <= t < ldur l -> play l c t = play l' c t
   | None, None => True
   | _, _ => False
   end.
-(* proved part: one collapse step (new_subprogram: to_waveform + global transformation) of any well-formed program
+Proof. exact single_waveform_thm. Qed.
+Print Assumptions C05_single_waveform.
+
+(* the step it rests on: one collapse (new_subprogram: to_waveform + global transformation) of any well-formed program
    plays X applied to that program and keeps the duration *)
-Theorem C05_single_waveform_partial : forall prog X, lok prog ->
+Theorem C05_collapse_step : forall prog X, lok prog ->
   wdur (with_global (to_waveform prog) X) = ldur prog /\
   forall c t, 0 <= t < ldur prog ->
     usample (with_global (to_waveform prog) X) c t = chain_apply X (fun c' => play prog c' t) c.
 Proof. exact collapse_step. Qed.
-Print Assumptions C05_single_waveform_partial.
+Print Assumptions C05_collapse_step.
 
 (* without the guard: a node collapsed below the inner template of a time reversal (NaN at the first sample, wrong
    piece at the junction), and a collapsed parallel-channel node below an arithmetic template *)
